@@ -5,17 +5,19 @@ sys.path.insert(0, os.path.join(os.path.dirname(os.path.abspath(__file__)), ".."
 import vf
 
 OPS = [("signblob", [""]), ("signvar", [""]), ("writevar", ["db", "OsIndications"]), ("legacywrite", ["db"]), ("signedupdate", ["db", "KEK"]),
-       ("readvar", ["db"]), ("legacyread", ["db"]), ("signimage-signer", ["synthetic", "fixture-signed"]),
+       ("readvar", ["db", "db:typed"]), ("legacyread", ["db"]), ("signimage-signer", ["synthetic", "fixture-signed"]),
        ("parseimage", ["synthetic", "synthetic-signed", "fixture", "fixture-signed"]), ("hashimage", ["hello", "large", "synthetic", "fixture-signed"]),
        ("signimage", ["hello", "large", "synthetic", "synthetic-signed", "fixture"]), ("verifyimage", ["hello-signed", "synthetic-signed", "fixture-signed"])]
 
 
 def scen(sid, api, variant, k, kind="error", persist=False):
-    s = {"sc": sid, "api": api, "k": k, "kind": kind}
+    s = {"sc": sid, "api": api, "k": k, "kind": kind, "vkey": variant}
     if persist:
         s["persist"] = True
     if api in ("writevar", "legacywrite", "signedupdate", "readvar", "legacyread"):
-        s["var"] = variant
+        s["var"] = variant.split(":")[0]
+        if variant.endswith(":typed"):
+            s["typed"] = True       # through the typed accessor (Getdb) instead of GetVar
     else:
         s["variant"] = variant
     return s
@@ -39,16 +41,20 @@ def run(c):
             continue
         deps = [e["dep"] for e in evs if e.get("op") == "dep"]
         for k, d in enumerate(deps, 1):
-            a, v = s["api"], s.get("var", s.get("variant"))
+            a, v = s["api"], s["vkey"]
             runs.append(scen("%s/%s/%d" % (a, v, k), a, v, k))
             if k < len(deps):     # the dependency stays broken: the calls made after the fault (cleanup) fail as well
                 runs.append(scen("%s/%s/%d-persist" % (a, v, k), a, v, k, persist=True))
+            if d in ("file.Write", "file.Read", "signer.Sign", "file.Close", "fs.OpenFile"):
+                runs.append(scen("%s/%s/%d-eintr" % (a, v, k), a, v, k, "eintr"))       # an error that looks transient is still the operation's failure
             if d == "file.Write":
+                runs.append(scen("%s/%s/%d-eagain" % (a, v, k), a, v, k, "eagain"))
                 for sk in ("short", "short1", "short4"):
                     runs.append(scen("%s/%s/%d-%s" % (a, v, k, sk), a, v, k, sk))
             if d == "file.Read":
                 runs.append(scen("%s/%s/%d-partial-error" % (a, v, k), a, v, k, "partial-error"))
                 runs.append(scen("%s/%s/%d-partial" % (a, v, k), a, v, k, "partial"))
+                runs.append(scen("%s/%s/%d-eof0" % (a, v, k), a, v, k, "eof0"))               # the file ends although its size promised more
             if d == "readerat.ReadAt":
                 for ek in ("eof", "eof1", "eof0"):      # half of the bytes / all but one byte / none of them, together with io.EOF
                     runs.append(scen("%s/%s/%d-%s" % (a, v, k, ek), a, v, k, ek))
@@ -66,7 +72,7 @@ def run(c):
             e = {k: v for k, v in e.items() if k not in ("sc", "panic", "ev", "ncalls")}
             events.append(e); owner.append(s["sc"])
         if s["k"] > 0:
-            c.nontrivial([s["api"], s.get("var", s.get("variant")), s["k"], s["kind"], bool(s.get("persist"))])
+            c.nontrivial([s["api"], s["vkey"], s["k"], s["kind"], bool(s.get("persist"))])
     rej = c.validate_traces("DepFaultsTrace", "DepFaultsTrace.cfg", events)
     byid = {s["sc"]: s for s in allsc}
     seen = {}
